@@ -5,11 +5,22 @@
 (*                                                                         *)
 (* Each line of the ndjson file named by the environment variable          *)
 (* TRACE_FILE records one real kernel call:                                *)
-(*   ns, nf, con8, above[p] (0/1), labels[p] (kernel output), n (returned  *)
-(*   count), parent[p], depth[p] : a spanning forest of the label classes  *)
+(*   ns, nf, con8,                                                         *)
+(*   vkey[p]  the float32 pixel value the kernel was given, as its         *)
+(*            order-preserving integer key (the IEEE bit pattern b read as *)
+(*            a signed 32-bit integer: b if b >= 0, -(b & 0x7fffffff)      *)
+(*            otherwise; x < y <=> key(x) < key(y) for all non-NaN         *)
+(*            float32 incl. +-inf, subnormals, key(-0) = key(+0) = 0),     *)
+(*   tkey     the same key of the threshold as the kernel receives it      *)
+(*            (its parameter is a float32: the caller's number rounded),   *)
+(*   labels[p] (kernel output), n (returned count),                        *)
+(*   parent[p], depth[p] : a spanning forest of the label classes          *)
 (*   computed by the recorder (parent = -1 for a root)                     *)
+(* "strictly above the threshold" is decided HERE, on the exact keys (no   *)
+(* floating point, no boolean image supplied by the recorder):             *)
+(*   Ab(c, p) == vkey[p] > tkey                                            *)
 (* "labels = connected components" is equivalent to the local conditions   *)
-(*   L1 background   labels[p] = 0  <=>  above[p] = 0                      *)
+(*   L1 background   labels[p] = 0  <=>  ~Ab(p)                            *)
 (*   L2 closed       adjacent above pixels carry the same label            *)
 (*   L3 connected    every non-root pixel's parent is an adjacent pixel of *)
 (*                   the same label with depth one smaller; one root per   *)
@@ -17,6 +28,17 @@
 (*   L4 numbering    labels used are exactly 1..n                          *)
 (* which are linear in the image size.  One state per trace line; the      *)
 (* verdict of every line is printed (`@@{"id":..,"ok":..,"why":..}`).      *)
+(*                                                                         *)
+(* The certificate does not say which route produced the labels: the       *)
+(* harness sends the arrays of cImageD11.connectedpixels (any thread       *)
+(* count), sparse_connectedpixels and _splat (scattered to the image);     *)
+(* the Python wrappers (labelimage.labelpeaks for every input dtype and    *)
+(* memory layout, sparseframe.sparse_connected_pixels with any array       *)
+(* names, SparseScan.cplabel frame by frame) are judged by equality with   *)
+(* an array this module accepted (label classes, numbering and count are   *)
+(* covariant under those call shapes: the same kernel on the same float32  *)
+(* values).  NaN pixels are outside this module (no key; the property      *)
+(* statement is silent on them).                                           *)
 (***************************************************************************)
 EXTENDS Integers, Sequences, FiniteSets, TLC, Json, IOUtils
 
@@ -27,20 +49,22 @@ Init == l = 1
 Next == l <= Len(Trace) /\ l' = l + 1
 Spec == Init /\ [][Next]_l
 
-L1(c) == \A p \in 1..(c.ns * c.nf) : (c.labels[p] = 0) <=> (c.above[p] = 0)
+Ab(c, p) == c.vkey[p] > c.tkey
+
+L1(c) == \A p \in 1..(c.ns * c.nf) : (c.labels[p] = 0) <=> ~Ab(c, p)
 \* forward neighbours only (E, SW, S, SE): each adjacent pair is examined once
 L2(c) ==
   \A p \in 1..(c.ns * c.nf) :
-    c.above[p] = 1 =>
+    Ab(c, p) =>
       LET r == (p - 1) \div c.nf   q == (p - 1) % c.nf
           ok(dr, dq) == LET r2 == r + dr  q2 == q + dq
-                        IN (r2 < c.ns /\ q2 >= 0 /\ q2 < c.nf /\ c.above[r2 * c.nf + q2 + 1] = 1)
+                        IN (r2 < c.ns /\ q2 >= 0 /\ q2 < c.nf /\ Ab(c, r2 * c.nf + q2 + 1))
                              => c.labels[r2 * c.nf + q2 + 1] = c.labels[p]
       IN /\ ok(0, 1) /\ ok(1, 0)
          /\ (c.con8 = 1 => ok(1, -1) /\ ok(1, 1))
 L3(c) ==
   /\ \A p \in 1..(c.ns * c.nf) :
-       (c.above[p] = 1 /\ c.parent[p] # -1) =>
+       (Ab(c, p) /\ c.parent[p] # -1) =>
           LET m == c.parent[p] + 1
               dr == ((p - 1) \div c.nf) - ((m - 1) \div c.nf)
               dq == ((p - 1) % c.nf) - ((m - 1) % c.nf)
@@ -49,8 +73,8 @@ L3(c) ==
              /\ c.depth[m] = c.depth[p] - 1
              /\ dr \in {-1, 0, 1} /\ dq \in {-1, 0, 1}
              /\ (c.con8 = 1 \/ dr = 0 \/ dq = 0)
-  /\ \A p \in 1..(c.ns * c.nf) : (c.above[p] = 1 /\ c.parent[p] = -1) => c.depth[p] = 0
-  /\ LET roots == {p \in 1..(c.ns * c.nf) : c.above[p] = 1 /\ c.parent[p] = -1}
+  /\ \A p \in 1..(c.ns * c.nf) : (Ab(c, p) /\ c.parent[p] = -1) => c.depth[p] = 0
+  /\ LET roots == {p \in 1..(c.ns * c.nf) : Ab(c, p) /\ c.parent[p] = -1}
      IN /\ Cardinality(roots) = c.n
         /\ {c.labels[p] : p \in roots} = 1..c.n
 L4(c) == \A p \in 1..(c.ns * c.nf) : c.labels[p] >= 0 /\ c.labels[p] <= c.n
